@@ -345,6 +345,11 @@ class ManifestContext:
             dc = DrmContext(stream, keys, self.options)
             adp.drm = dc.manifest_context
             adp.default_kid = list(keys.keys())[0]
+            for rep in adp.representations:
+                if rep.default_kid is not None:
+                    # a track with several keys: the one tenc names
+                    adp.default_kid = rep.default_kid
+                    break
         return period
 
     def calculate_video_adaptation_set(
